@@ -319,6 +319,58 @@ func advBuild(r *crun, rng *core.Rng, kind string, label string) *advTx {
 		outs[0].Amount = amountFromUnits(big1)
 		mk([]*cluster.Coin{coin}, outs, nil)
 		a.class = "conservation"
+	case "wrapping-outputs":
+		// every output fits a machine word but the output total exceeds the inputs by exactly 2^k
+		k := []uint{32, 63, 64, 64, 64, 128}[rng.IntN(6)]
+		half := new(big.Int).Lsh(big.NewInt(1), k-1)
+		outs[0].Amount = amountFromUnits(new(big.Int).Add(half, x))
+		outs[1].Amount = amountFromUnits(new(big.Int).Add(half, y))
+		mk([]*cluster.Coin{coin}, outs, nil)
+		a.class = "conservation"
+	case "aliased-input-index":
+		// names an output index that does not exist (real index + a multiple of 256 / 65536), authorized with
+		// the keys of the real output; alone, or next to the real output so the same value counts twice
+		ghost := *coin
+		u := *coin.UTXO
+		ghost.UTXO = &u
+		step := []uint{256, 256, 512, 768}[rng.IntN(4)]
+		ghost.Index = coin.Index + step
+		ghost.UTXO.Index = coin.UTXO.Index + step
+		coins := []*cluster.Coin{&ghost}
+		if rng.Chance(0.5) {
+			coins = []*cluster.Coin{coin, &ghost}
+			sum := new(big.Int).Add(total, total)
+			outs = []cluster.OutSpec{{Owners: []int{1}, Threshold: 1, Amount: amountFromUnits(sum)}}
+		}
+		func() {
+			defer func() { recover() }() // the honest signer refuses a key mismatch; signatures are redone below
+			mk(coins, outs, nil)
+		}()
+		if a.tx == nil {
+			tx := common.NewTransactionV5(coin.Asset)
+			for _, cn := range coins {
+				tx.AddInput(cn.Tx, cn.Index)
+			}
+			for i, o := range outs {
+				sh := crypto.Blake3Hash([]byte(fmt.Sprintf("ALIAS%s%d%s%d", coin.Tx, coin.Index, label, i)))
+				accounts := make([]*common.Address, len(o.Owners))
+				for j, uo := range o.Owners {
+					accounts[j] = c.User(uo)
+				}
+				tx.AddScriptOutput(accounts, common.NewThresholdScript(o.Threshold), o.Amount, append(sh[:], sh[:]...))
+			}
+			a.tx = (&common.SignedTransaction{Transaction: *tx}).AsVersioned()
+			a.source = coins
+		}
+		signed := &common.SignedTransaction{Transaction: a.tx.Transaction}
+		for range coins {
+			if err := signUTXOLoose(signed, coin.UTXO, honest(coin)); err != nil {
+				return nil
+			}
+		}
+		a.tx = signed.AsVersioned()
+		a.coins = nil
+		a.class = "conservation"
 	case "two-assets":
 		var other *cluster.Coin
 		for try := 0; try < 8 && other == nil; try++ {
@@ -484,5 +536,5 @@ func signUTXOLoose(signed *common.SignedTransaction, utxo *common.UTXO, accounts
 }
 
 var advValidKinds = []string{"valid", "valid", "valid-two-inputs", "valid-aggregate"}
-var advConservationKinds = []string{"sum-plus-one", "sum-minus-one", "huge-outputs", "two-assets", "duplicate-input", "nonexistent-input", "deposit-amount-mismatch"}
+var advConservationKinds = []string{"sum-plus-one", "sum-minus-one", "huge-outputs", "wrapping-outputs", "aliased-input-index", "two-assets", "duplicate-input", "nonexistent-input", "deposit-amount-mismatch"}
 var advAuthorizationKinds = []string{"wrong-signer", "below-threshold", "no-signatures", "signature-index-out-of-range", "flipped-signature-bit", "payload-changed-after-signing", "swapped-signature-maps", "aggregate-missing-signer", "aggregate-shifted-signers"}
